@@ -1,5 +1,36 @@
-"""first-order part of C05 (filled in when the fol stream exists)"""
+"""first-order part of C05: bounds move monotonically inwards, groundings never disappear"""
+import streams
+from checks._folcommon import tabs_of, is_inference, monotone
+
+
+def oracle(rec):
+    prev = None
+    for k, op, out, tabs in tabs_of(rec):
+        if prev is not None and is_inference(op):
+            bad = monotone(prev, tabs)
+            if bad:
+                bad["after_op"] = op
+                return bad
+        prev = tabs
+    if rec["meta"]["errors"]:
+        return {"exception": rec["meta"]["errors"]}
+    return None
 
 
 def run(rep, tier, seed):
-    return
+    n = 100 if tier == "quick" else 2000
+    for name, quant in (("fol-qf", False), ("quant", True)):
+        progs = [streams.gen_fol_program(seed + 5, k, quant=quant, crossed_p=0.1) for k in range(n)]
+        recs, first = streams.run_fol_stream(rep, name, progs, {"tables", "reported", "contra"})
+        for r in recs:
+            if "crash" in r:
+                continue
+            outs = [o for l, o in zip(r["lines"], r["impl"]) if l.startswith(("fup", "fdown", "fpass", "finfer"))]
+            nz = sum(1 for o in outs if o.split()[-1] != "0")
+            rep.count_case(streams.canon(r["prog"]), len(outs) >= 2 and 0 < nz < len(outs))
+            bad = oracle(r)
+            if bad:
+                rep.violation("fol-bound-loosened", bad, {"program": streams.ser(r["prog"]), "failure": bad,
+                                                          "protocol": r["lines"], "impl": r["impl"]})
+        if first is not None and not rep.violations:
+            rep.extra.setdefault("first_disagreement_" + name, {"program": streams.ser(first["prog"]), "at": first["disagreements"][:3]})
